@@ -499,11 +499,26 @@ def check_python_version(program: str) -> None:
         )
 
 
+def message_severity(message: str) -> str | None:
+    """Return the severity ("error" or "note") of a formatted message line, if any.
+
+    The severity is given by the first marker in the line: the message text after it
+    may itself contain ": error:" or ": note:" (for example in a quoted string literal).
+    """
+    error_pos = message.find(": error:")
+    note_pos = message.find(": note:")
+    if error_pos >= 0 and (note_pos < 0 or error_pos < note_pos):
+        return "error"
+    if note_pos >= 0:
+        return "note"
+    return None
+
+
 def count_stats(messages: list[str]) -> tuple[int, int, int]:
     """Count total number of errors, notes and error_files in message list."""
-    errors = [e for e in messages if ": error:" in e]
+    errors = [e for e in messages if message_severity(e) == "error"]
     error_files = {e.split(":")[0] for e in errors}
-    notes = [e for e in messages if ": note:" in e]
+    notes = [e for e in messages if message_severity(e) == "note"]
     return len(errors), len(notes), len(error_files)
 
 
